@@ -157,10 +157,10 @@ func init() {
 		ID:     "C09",
 		Level:  "other",
 		Funcs:  []string{"tcell.(*CellBuffer).SetContent", "tcell.(*CellBuffer).GetContent", "tcell.(*CellBuffer).Fill", "tcell.(*tScreen).encodeRune"},
-		Custom: []func(*PropRun){c09RuneWidth, c09Emit},
+		Custom: []func(*PropRun){c09RuneWidth, c09Emit, c09Stream},
 		Trusted: []string{"go-runewidth's (*Condition).RuneWidth is executed from its source for the listed code points with no lookup table built (RUNEWIDTH_EASTASIAN unset / CreateLUT not called); its global DefaultCondition is what tcell calls"},
 		Assume: []string{"PARTIAL claim: decided is only that a primary rune that is a C0 control, DEL, a C1 control, U+200B-200F, U+2028-202E, U+FEFF, a surrogate or an invalid code point is stored with width 0 and handed out as a blank (chain: RuneWidth == 0 from the dependency's source; SetContent stores width = RuneWidth(main) - C08 contract; GetContent blanks width 0 and runes < ' ' - C08 contract), and that an unencodable rune never reaches the terminal raw (encodeRune, C17 contract)",
-			"NOT decided: that everything written parses as complete ECMA-48 sequences (no tokenizer over the emitted stream was built; per-description string well-formedness is C14's grammar check, parameter rendering C07/C15); other Cf characters such as U+2060-2064, U+2066-2069, U+061C have width 1 in go-runewidth and are passed on as content (UTF-8 text, no control byte)"},
+			"first clause: see c09Stream (sites classified, strings tokenized per ECMA-48-family description); assumed: SetSize's requested size and the application's text parameters (title, URL, clipboard) are well-formed; drawCell coordinates by C13's draw contract; screens at least two columns wide; other Cf characters such as U+2060-2064, U+2066-2069, U+061C have width 1 in go-runewidth and are written as text"},
 	})
 	reg(&PropDef{
 		ID:    "C11",
